@@ -4,6 +4,7 @@ import (
 	"go/ast"
 	"go/token"
 	"go/types"
+	"os"
 	"sort"
 	"sync"
 
@@ -173,6 +174,9 @@ func (ix *PkgIndex) FG(f *FuncInfo) *FG {
 	}
 	g := NewFG(f)
 	ix.fgs[f] = g
+	if d := os.Getenv("VERIF_DUMPFG"); d != "" && d == f.Name {
+		g.Dump(os.Stderr)
+	}
 	return g
 }
 
